@@ -11,6 +11,9 @@ pub struct HistCfg {
     pub cont_max: bool,
     pub set_vars: bool,
     pub stop_at_end: bool,
+    /// sprinkle host calls that must be refused (choice index just out of range, choosing while the story can
+    /// still continue, continuing when it cannot): they must return Err and never panic
+    pub bad_calls: bool,
     /// knots a path jump may target (None: every knot whose name starts with 'k', i.e. generated flow knots)
     pub jump_targets: Option<Vec<String>>,
 }
@@ -23,7 +26,7 @@ impl Default for HistCfg {
             jumps: false,
             cont_max: false,
             set_vars: false,
-            stop_at_end: true,
+            stop_at_end: true, bad_calls: false,
             jump_targets: None,
         }
     }
@@ -106,6 +109,14 @@ pub fn gen_history_on(p: &mut Player, c: &Compiled, rng: &mut Rng, h: &HistCfg) 
                 Some(bladeink::value_type::ValueType::String(_)) => Op::SetVar(g, Val::Str(format!("s{}", rng.below(4)))),
                 _ => Op::GlobalTags,
             }
+        } else if h.bad_calls && rng.chance(1, 9) {
+            match rng.below(4) {
+                0 => Op::Choose(nchoices),
+                1 => Op::Choose(nchoices + 1),
+                2 if can => Op::Choose(0),
+                _ if !can => Op::Cont,
+                _ => Op::Choose(nchoices + 2),
+            }
         } else if can {
             if h.cont_max && rng.chance(1, 10) { Op::ContMax } else { Op::Cont }
         } else if nchoices > 0 {
@@ -128,7 +139,7 @@ pub fn gen_history_on(p: &mut Player, c: &Compiled, rng: &mut Rng, h: &HistCfg) 
         if p.fuel_hit {
             break;
         }
-        if failed && p.story.has_error() && !h.flows {
+        if failed && p.story.has_error() && !h.flows && !h.bad_calls {
             // story halted by an error: nothing more can happen without a reset
             break;
         }
